@@ -12,7 +12,7 @@
 (* partial: outside the domain the properties quantify over the slot is     *)
 (* Unspec and only C01 (some slot, no panic) applies.                       *)
 (***************************************************************************)
-EXTENDS Env, NumFormat, TLC
+EXTENDS Env, UiSpans, TLC
 
 ArithMeaning(toks) ==
   IF DateLike(toks) THEN Unspec
